@@ -351,14 +351,24 @@ def run(R):
                     cfg.fmt_path(p) if p else None)
     rie = fb.methods.get("raise_if_error")
     R.need(rie is not None, "anchor vanished: FutureBase.raise_if_error")
-    tests = [n for n in rie.node.body if isinstance(n, ast.If)]
-    inner = set(id(x) for t_ in tests for x in ast.walk(t_))
-    stray = [n for n in ast.walk(rie.node) if (isinstance(n, ast.Raise) or (isinstance(n, ast.Call) and (q.call_name(n) or "").endswith("reraise"))) and id(n) not in inner]
-    okt = len(tests) == 1 and q.atom_test(tests[0].test) == ("isnone", "self._error", False) and not stray
+    # (decided on the flow graph: `if self._error is not None: ...` and the guard clause `if self._error is None: return` are the same)
+    rcfg_ = cfg_of(rie)
+    raising_ = [n for n in rcfg_.nodes if n.kind == "stmt" and (isinstance(n.ast, ast.Raise) or any((q.call_name(c) or "").endswith("reraise") for c in kit.node_calls(n)))]
+
+    def has_error(nd):
+        if nd.kind != "test":
+            return None
+        k_, s_, pos_ = q.atom_test(nd.ast)
+        if k_ == "isnone" and s_ == "self._error":
+            return "F" if pos_ else "T"
+        return None
+    truthy_ = [n for n in rcfg_.nodes if n.kind == "test" and q.atom_test(n.ast)[0] == "truth" and q.atom_test(n.ast)[1] == "self._error"]
+    pid_ = kit.path_avoiding_guard(rcfg_, raising_, has_error, N, dead_ok=True) if raising_ else None
+    okt = bool(raising_) and pid_ is None and not truthy_ and bool(kit.guard_edges_exist(rcfg_, has_error))
     R.check(okt, "C10.COMPUTE-ONCE", rie.qualname + ":identity", R.site(rie),
             "raise_if_error tests `self._error is not None` (identity)",
             "raise_if_error tests `%s`: a stored error that is falsy (an exception class defining __len__/__bool__) is not raised by value() although error() reports it"
-            % (q.src(tests[0].test) if tests else "nothing"))
+            % (q.src(truthy_[0].ast) if truthy_ else ("nothing" if not raising_ else "something else than `self._error is None`")))
     rr = [c for c in q.calls(rie.node) if (q.call_name(c) or "").endswith("reraise") and c.args and q.src(c.args[0]) == "self._error"]
     raises = [n for n in ast.walk(rie.node) if isinstance(n, ast.Raise) and n.exc is not None and q.src(n.exc) == "self._error"]
     R.check(bool(rr or raises), "C10.COMPUTE-ONCE", rie.qualname, R.site(rie),
